@@ -294,7 +294,37 @@ def extract_matrix(syn):
     return out
 
 
-def matrix_rule(syn, prop="C16"):
+ATOM_WORDS = {"type_override": ["`type`", "ts(type"], "type_as": ["`as`", "ts(as"], "flatten": ["`flatten`"], "inline": ["`inline`"], "optional": ["`optional`"], "rename": ["`rename`", "`flatten` cannot with tuple"],
+              "using_serde_with": ["serde(with"], "shape:unnamed-field": ["tuple struct"], "rename_all": ["`rename_all`"], "rename_all_fields": ["`rename_all_fields`"],
+              "tag": ["`tag`"], "content": ["`content`"], "untagged": ["`untagged`"], "optional_fields": ["`optional_fields`", "`optional`"], "shape:Named": ["named fields", "struct"]}
+
+
+def _table_driven_messages(crate, kind):
+    """string constants of `<Kind as Attr>::assert_validity` when it reports through a table of (condition, message) rows
+    (an array of tuples whose second component is a string): the rows' conditions are data, not branches"""
+    if crate is None:
+        return None
+    out = []
+    for b in crate.bodies:
+        if not re.search(r"%s as attr::Attr>::assert_validity" % kind, b.path) and not re.search(r"%s.*assert_validity" % kind, b.path):
+            continue
+        rows = 0
+        for blk in range(b.n):
+            for st in b.stmts(blk):
+                if st["k"] == "assign" and st["rv"]["k"] == "agg" and st["rv"].get("tuple") and len(st["rv"]["ops"]) == 2 and b.local_ty(st["dst"]["l"]).startswith("(bool, &"):
+                    rows += 1
+                    c = M.op_const(st["rv"]["ops"][1])
+                    if c is None and op_local(st["rv"]["ops"][1]) is not None:
+                        cs = [o for o in origins(b, op_local(st["rv"]["ops"][1])) if o["kind"] == "const"]
+                        c = cs[0]["c"] if cs else None
+                    if c and c.get("str"):
+                        out.append(c["str"])
+        if rows >= 2:
+            return out
+    return None
+
+
+def matrix_rule(syn, prop="C16", crate=None):
     r = Result("C16.R3", "every rejected attribute combination of the reference matrix (frozen from the reviewed tree) is still rejected by an error site guarded by exactly those attribute fields / item shapes in the corresponding assert_validity")
     with open(os.path.join(VERIF, "reference/incompat.json")) as fh:
         ref = json.load(fh)["matrix"]
@@ -310,6 +340,13 @@ def matrix_rule(syn, prop="C16"):
             ok = key in pool
             if ok:
                 pool.remove(key)
+            if not ok:
+                # a validity check written as a table of (condition, message) rows has no branch per rule to look at:
+                # if the table has a message that names every attribute of the combination, the rule is there - undecided
+                msgs = _table_driven_messages(crate, kind)
+                if msgs is not None and any(all(any(w in m_ for w in ATOM_WORDS.get(a, [a])) for a in key) for m_ in msgs):
+                    r.inst(attr=kind, rejects=list(key), present=None, note="table-driven check: a row with a message naming these attributes exists; its condition is data and is not evaluated")
+                    continue
             r.inst(attr=kind, rejects=list(key), present=ok)
             if not ok:
                 r.fail(prop, "rejection-missing %s %s" % (kind, "+".join(key)),
@@ -386,7 +423,7 @@ def run(ctx):
         c = ctx.mir(fs)["ts_rs_macros"]
         res = [panic_inventory(c, ctx.syn), validated_rule(c), unknown_key_rule(c), diagnostics_rule(c, ctx.syn)]
         if fs == "default":
-            res.append(matrix_rule(ctx.syn))
+            res.append(matrix_rule(ctx.syn, crate=c))
             from rules import templates as T
             res.append(T.impl_header_rule(ctx.syn, "C16"))
         for r in res:
